@@ -25,18 +25,28 @@ func (c18) Rule() string {
 		"K3 1-3 subscribers cancel at the yield point ws.subscribe.beforeWrite on a connection shared with 2-5 established subscriptions; K4 upstream complete/error for some of 3-8 ids, the others continue; " +
 		"K5 interleaved next for 3-20 ids (scripted order or concurrent senders); K6 option tuples differing in exactly one of endpoint/subprotocol/header value/extra header/init value/init presence/init key plus an identical twin; " +
 		"K7 last subscription ends by cancel or upstream terminal -> connection closes (idle 0/15/40 ms), and a subscriber arriving during the linger survives the idle timer; K8 upstream drops one of 2-3 connections or stops answering pings; " +
-		"K9 the SSE forms of K2, K4, K5, K7, K8. K1, K2, K3, K7-resubscribe and the stress kind run twice: control (no cancel) and experiment; the outcome of every subscriber that did not cancel must equal its control outcome. " +
-		"Stress: 2-64 concurrent subscribers over 1-3 option tuples with random cancels (before Subscribe returns, at the yield point, after return, after k messages) against an upstream that delays connection_ack 0-3 ms. " +
-		"A case is non-trivial when its window was actually reached (waiters parked / yield point hit / connection shared by >=2 subscriptions with a cancel in flight / different tuples observed on different connections / connection observed closing after its last subscription); distinct by hash of the generated parameters."
+		"K9 the SSE forms of K2, K4, K5, K7, K8; " +
+		"K10 the K1/K2 situation where the leaver (dial leader 80%, else a waiter) does not call cancel(): its own context is a context.WithTimeout(40/80/150 ms) that ends by DEADLINE while the upstream withholds the connection_ack / the upgrade " +
+		"(the scenario waits for the departure before the upstream lets anything through; the waiters must then be served by a second dial); " +
+		"K11 idle-period histories (idle 20/30/50 ms): 2-4 rounds of 1-3 subscriptions on one option tuple, each round ended by cancel / upstream complete / upstream error so that the connection runs empty, followed by " +
+		"reuse-hold (next round subscribes during the idle period and stays subscribed until two consecutive timers of the idle period have fired), reuse-brief (subscribes and ends at once) or after-close (next round after the connection went away); after the last round no subscriber is left and the connections must go. " +
+		"K1, K2, K3, K7-resubscribe, K10 and the stress kind run twice: control (no cancel / no deadline) and experiment; the outcome of every subscriber that did not cancel must equal its control outcome. " +
+		"Stress: 2-64 concurrent subscribers over 1-3 option tuples with random cancels (before Subscribe returns - by cancel() or, for 2 in 5 of them, by a context.WithTimeout of 0-2.5 ms on the subscriber's own context -, at the yield point, after return, after k messages) against an upstream that delays connection_ack 0-3 ms. " +
+		"Every run of every kind ends with the cleanup oracle: once no subscriber is left, client Stats() and the upstream's open connections return to zero; a WebSocket connection the upstream still sees open after 100 consecutive timers of max(idle period, 40 ms) is a violation (cleanup.conn-outlives-idle). " +
+		"A case is non-trivial when its window was actually reached (waiters parked while the leaver was still there / yield point hit / connection shared by >=2 subscriptions with a cancel in flight / different tuples observed on different connections / connection observed closing after its last subscription / " +
+		"K11: >=1 round verifiably re-used the idling connection (same upstream connection id) and outstayed the idle period, and the connection was then seen closing); distinct by hash of the generated parameters."
 }
 
 func (c18) Assumptions() []string {
 	return []string{
-		"a subscriber 'cancels' the way graphql_subscription_client.go does: its context ends and, once Subscribe has returned the unsubscribe function, that function is called once",
+		"a subscriber 'cancels' the way graphql_subscription_client.go does: its context ends - by cancel() or because the context carries a deadline (context.WithTimeout) - and, once Subscribe has returned the unsubscribe function, that function is called once",
 		"the upstream embeds (subscription key, sequence number, server connection id) in every payload; the key travels in the query text, so the upstream can attribute wire ids without trusting the client",
 		"a subscription that cancelled is only required to have received a prefix of what was sent; messages delivered after a terminal/connection error are counted, not judged",
 		"requested subprotocol 'auto' and an explicit subprotocol count as different option tuples (the upstream compares the offered subprotocol list)",
-		"cleanup (connections -> 0) and stalls are bounded-progress checks: a 15 s watchdog per wait makes the case inconclusive, never violated; ping timeouts on connections whose pong was measurably slow are excused as timing",
+		"stalls are bounded-progress checks: a 15 s watchdog per wait makes the case inconclusive, never violated; ping timeouts on connections whose pong was measurably slow are excused as timing",
+		"cleanup (connections -> 0 once no subscriber is left): 'does not outlive its last subscription by more than the configured idle period' is judged with a 100-fold margin measured in the client's own currency - a chain of 100 consecutive time.AfterFunc timers of max(idle period, 40 ms) run by the harness in the same process, so a starved process delays both alike and no wall-clock value is compared; " +
+			"only a WebSocket connection the upstream still sees open after those 100 timers is convicted; timers that did not fire within the 16 s watchdog, SSE requests still open, or a client Stats() that stays non-zero although the upstream sees nothing open make the case inconclusive",
+		"a deadline that ends before the waiters are parked (K10) or a round that lands on a fresh connection because the idle period was over before it subscribed (K11) only makes the case trivial; the verdicts do not depend on it",
 		"loopback TCP through net/http/httptest is part of the trusted base",
 	}
 }
@@ -45,7 +55,9 @@ func (c18) RequiredCounters(string) []string {
 	return []string{"msgs_delivered", "msgs_checked", "conns_opened", "shared_conns", "conns_closed_after_last_sub", "ws_conns_closed_after_last_sub", "hook_ws.subscribe.beforeWrite",
 		"cancel_dial.ack", "cancel_dial.upgrade", "cancel_subscribe.write", "waiters_parked", "isolation_comparisons", "distinct_tuple_pairs_on_distinct_conns",
 		"fault_victim_errors", "idle_linger_reuse", "k7_ws_idle_close_observed",
-		"scen_K1", "scen_K2", "scen_K3", "scen_K4", "scen_K5", "scen_K6", "scen_K7", "scen_K8", "scen_K9", "scen_stress"}
+		"scen_K1", "scen_K2", "scen_K3", "scen_K4", "scen_K5", "scen_K6", "scen_K7", "scen_K8", "scen_K9", "scen_stress",
+		"scen_K10", "scen_K11", "cancel_dial.ack.deadline", "cancel_dial.upgrade.deadline", "deadline_leader_left_waiters_parked", "cancel_by-deadline",
+		"idle_history_rounds_reusing_idle_conn", "idle_history_rounds_held_past_idle_period"}
 }
 
 const (
@@ -60,8 +72,10 @@ func mult(tier string) int {
 	return 1
 }
 
+// K10 and K11 were added after the first nine kinds and the stress kind; they take the indices
+// behind them so that every older case keeps its index (and random stream).
 func (c18) NumCases(tier string) int {
-	return (9*perKindQuick + stressQuick) * mult(tier)
+	return (9*perKindQuick + stressQuick + 2*perKindQuick) * mult(tier)
 }
 
 func (p c18) Run(c *fw.Ctx, idx int) fw.Result {
@@ -69,6 +83,8 @@ func (p c18) Run(c *fw.Ctx, idx int) fw.Result {
 	kind, sub := "stress", idx-9*perKindQuick*m
 	if idx < 9*perKindQuick*m {
 		kind, sub = fmt.Sprintf("K%d", idx/(perKindQuick*m)+1), idx%(perKindQuick*m)
+	} else if late := idx - (9*perKindQuick+stressQuick)*m; late >= 0 {
+		kind, sub = fmt.Sprintf("K%d", 10+late/(perKindQuick*m)), late%(perKindQuick*m)
 	}
 	r := c.Rng(idx, "c18")
 	res := fw.Result{}
@@ -133,6 +149,41 @@ func (p c18) Run(c *fw.Ctx, idx int) fw.Result {
 		res.Observe("idle_variants", fmt.Sprintf("%s/idle=%dms", pp.Variant, pp.IdleMs))
 		res.Nontrivial = exp.ClosedAfterLast > 0
 		res.Count("k7_ws_idle_close_observed", int64(exp.WSClosedAfterLast))
+	case "K10":
+		window := []string{"ack", "upgrade"}[sub%2]
+		pp := genDialDeadline(r, window)
+		param = pp
+		ctl, _ := runDialCancel(pp, false, "control")
+		exp, parked := runDialCancel(pp, true, "experiment")
+		emit(&res, kind, ctl, exp, param)
+		left := cancels(exp, "dial."+window+".deadline")
+		if parked && left > 0 {
+			res.Count("waiters_parked_on_deadline_dial", int64(pp.Waiters))
+			if pp.Canceller == 0 {
+				res.Count("deadline_leader_left_waiters_parked", int64(pp.Waiters))
+			}
+		} else if left > 0 {
+			res.Count("deadline_ended_before_waiters_parked", 1)
+		}
+		res.Nontrivial = parked && left > 0
+		res.Observe("dial_deadline_roles", fmt.Sprintf("%s:%s:leaver=%s:%dms", window, protoLabel(pp.Tuple.Proto), map[bool]string{true: "leader", false: "waiter"}[pp.Canceller == 0], pp.DeadlineMs))
+	case "K11":
+		pp := genIdleHist(r)
+		param = pp
+		exp, reused, held := runIdleHist(pp, "run")
+		emit(&res, kind, nil, exp, param)
+		res.Count("idle_history_rounds", int64(len(pp.Rounds)))
+		res.Count("idle_history_rounds_reusing_idle_conn", int64(reused))
+		res.Count("idle_history_rounds_held_past_idle_period", int64(held))
+		if held > 0 {
+			res.Count("idle_history_ws_close_after_reuse", int64(exp.WSClosedAfterLast))
+		}
+		shape := ""
+		for _, rd := range pp.Rounds {
+			shape += "/" + rd.Next
+		}
+		res.Observe("idle_history_shapes", fmt.Sprintf("idle=%dms%s", pp.IdleMs, shape))
+		res.Nontrivial = held > 0 && exp.WSClosedAfterLast > 0
 	case "K8":
 		mode := "drop"
 		if sub%10 >= 7 {
@@ -176,6 +227,7 @@ func (p c18) Run(c *fw.Ctx, idx int) fw.Result {
 		res.Observe("sse_forms", []string{"cancel-during-request", "terminals", "interleave", "cleanup", "drop"}[sub%5])
 	default:
 		pp := genStress(r)
+		markDeadlines(&pp, c.Rng(idx, "c18.deadline"))
 		param = pp
 		ctl := runStress(pp, false, "control")
 		exp := runStress(pp, true, "experiment")
